@@ -207,6 +207,15 @@ def w_c10c():
         return f"an import of the root package exists only when externals are included: {got} vs {base}"
 
 
+def w_c10d():
+    files = {"proj/__init__.py": "", "proj/sub/__init__.py": "", "proj/sub/m.py": "from ..other.deep import x\n",
+             "proj/other/__init__.py": "", "proj/other/deep.py": "x = 1\n"}
+    with Project(files) as p:
+        nodes, imps, hier = graph_snapshot(scan(p, "proj", "proj/sub", exclude_external_libraries=False))
+    if "other" in nodes or any(u == "other" for u, _ in hier):
+        return f"relative import out of module_path adds phantom module 'other': nodes={nodes} hierarchy={hier}"
+
+
 # ----------------------------------------------------------------------------- C11
 def w_c11():
     g = make_graph(["p", "p.a", "p.a.x", "q"], [("p.a.x", "q")])
@@ -343,6 +352,7 @@ WITNESSES = {
     "F-C10a": ("C10", w_c10a),
     "F-C10b": ("C10", w_c10b),
     "F-C10c": ("C10", w_c10c),
+    "F-C10d": ("C10", w_c10d),
     "F-C11": ("C11", w_c11),
     "F-C13": ("C13", w_c13),
     "F-C13b": ("C13", w_c13b),
